@@ -13,6 +13,8 @@ A *package spec* is a dict
               from 2 to 3), the sink aggregates; inside a loop `add` is replicated x2 and `fake_add` aggregates
 * loop      - 0: no DoWhile; 1: a one-stage DoWhile document imported at stage 1 (components add, fake_add, stop);
               2: a two-stage DoWhile document (`stop` lives in the second loop stage)
+* layout    - (optional key, default 'dir') 'dir': package directory with real top level folders data/ extra/ special/;
+              'file': single FlowIR file + manifest with copied and LINKED top level folders (see layout())
 * bp        - 1: additionally the blueprint of platform P (global scope) and the blueprint of `default` (stage scope)
               define the SAME option (resourceRequest.numberThreads); only generated for loop>0, platform P, uv none/two
 """
@@ -101,10 +103,10 @@ def document(spec):
         doc['blueprint']['P']['global']['resourceRequest'] = {'numberThreads': 5}
     comps = doc['components']
     comps.append({'stage': 0, 'name': 'src',
-                  'references': ['data/values.txt:ref', 'input/in.txt:copy'],
+                  'references': ['data/values.txt:ref', 'input/in.txt:copy', 'extra/e.txt:ref', 'special/msg.txt:copy'],
                   'command': {'executable': 'echo',
                               'arguments': '%(g)s %(s)s %(x)s %(u)s %(chain)s %(sc)s %(own)s %(only_default)s '
-                                           'data/values.txt:ref in.txt'},
+                                           'data/values.txt:ref in.txt extra/e.txt:ref msg.txt'},
                   'variables': {'own': 'c-own', 'g2': 'comp-%(g)s'},
                   'workflowAttributes': {'restartHookOn': ['KnownIssue', 'Success'], 'repeatRetries': 1}})
     comps.append({'stage': 0, 'name': 'lit',
@@ -122,8 +124,8 @@ def document(spec):
     if spec['loop']:
         comps.append({'stage': 1, 'name': 'loop', '$import': 'dowhile.yaml',
                       'bindings': {'number': 'stage0.src:output'}})
-    sink_refs = ['stage0.mid:ref']
-    sink_args = 'stage0.mid:ref %(s)s %(x)s'
+    sink_refs = ['stage0.mid:ref', 'special/msg.txt:ref']
+    sink_args = 'stage0.mid:ref %(s)s %(x)s special/msg.txt:ref'
     post_refs = ['sink:ref']
     post_args = 'sink:ref %(g)s %(u)s'
     if spec['loop']:
@@ -168,9 +170,22 @@ def user_variable_files(spec):
     raise ValueError(k)
 
 
+def layout(spec):
+    """How the package is laid out on disk and how its top level folders reach the instance directory:
+    'dir'  - a package directory conf/ data/ extra/ special/ (real folders, copied into the instance)
+    'file' - a single FlowIR file plus a manifest {data: data (relative source, copied), extra: <abs>:copy,
+             special: <abs>:link}; the instance gets real copies of data/ extra/ and a link special -> <abs>
+    In both layouts components refer to files under all three folders; when the instance is re-loaded there is no
+    package manifest any more, the folders have to be recognised from the instance directory itself."""
+    return spec.get('layout', 'dir')
+
+
+FOLDER_FILES = {'data': {'values.txt': '1\n2\n'}, 'extra': {'e.txt': 'extra\n'}, 'special': {'msg.txt': 'hello\n'}}
+
+
 def extra_files(spec):
-    """Files of the package besides conf/flowir_package.yaml (relative path -> text)."""
-    return {'data/values.txt': '1\n2\n'}
+    """Files of a directory package besides conf/flowir_package.yaml (relative path -> text)."""
+    return {'%s/%s' % (folder, name): text for folder in FOLDER_FILES for name, text in FOLDER_FILES[folder].items()}
 
 
 INPUT_FILES = {'in.txt': 'input\n'}
@@ -184,6 +199,9 @@ def package_specs(thorough):
         out.append({'platform': platform, 'uv': uv, 'rep': rep, 'loop': loop, 'bp': 0})
         if loop and platform == 'P' and uv in ('none', 'two'):
             out.append({'platform': platform, 'uv': uv, 'rep': rep, 'loop': loop, 'bp': 1})
+    # single-file packages with a manifest (no $import: the DoWhile document lives in the conf/ folder of a package dir)
+    for platform, uv, rep in itertools.product(['default', 'P'], ['none', 'two'] + (['one', 'conf'] if thorough else []), [0, 1]):
+        out.append({'platform': platform, 'uv': uv, 'rep': rep, 'loop': 0, 'bp': 0, 'layout': 'file'})
     return out
 
 
